@@ -129,11 +129,13 @@ def rval(rng, sparse=False):
 SPECIALS = ["cancel", "cancel", "cancel", "dipole", "dipole", "const", "nonpos", "zero", "single", "wide"]
 class Quota:
     """no stream is left to chance: per stream key, at least one linear argument in five cancels exactly (where the size allows)"""
-    def __init__(self): self.n = {}; self.c = {}
+    def __init__(self): self.n = {}; self.c = {}; self.w = {}
     def want(self, rng, key, size):
         self.n[key] = self.n.get(key, 0) + 1
         if size >= 2 and self.c.get(key, 0) * 5 < self.n[key]:
             self.c[key] = self.c.get(key, 0) + 1; return rng.choice(["cancel", "dipole"])
+        if size >= 1 and (self.w.get(key, 0) + 1) * 7 <= self.n[key]:          # and one in seven holds wide integers
+            self.w[key] = self.w.get(key, 0) + 1; return "wide"
         return None
 QUOTA = Quota()
 def rvals(rng, n, sparse=False, e=0, special=None, spread=True, p_special=0.45, q=None):
@@ -192,7 +194,9 @@ def rcv(rng, n, e=0, q=None):
     """complex vector as (re, im) pairs; the two parts are independent (each generic or special), or the rare states:
        purely imaginary / purely real entries, im = -re (re + im cancels in every entry), im = re"""
     r = rng.random()
-    if q is not None and QUOTA.want(rng, q, n): r = 0.34
+    forced = QUOTA.want(rng, q, n) if q is not None else None
+    if forced == "wide": return list(zip(rvals(rng, n, special="wide"), rvals(rng, n, special="wide")))
+    if forced: r = 0.34
     if n >= 1 and r < 0.07: return [(Fraction(0), b) for b in rvals(rng, n, e=e, special="")]
     if n >= 1 and r < 0.14: return [(a, Fraction(0)) for a in rvals(rng, n, e=e, special="")]
     if n >= 1 and r < 0.20: return [(a, -a) for a in rvals(rng, n, e=e)]
@@ -408,6 +412,13 @@ def gen_class(tier, rng):
         img = Sv(rvals(rng, npix, sparse=(i % 3 == 0), e=rexp(rng), q="c.tvis"))
         yield dict(base, op="tvis", preload=pre(bool(i % 2)), native=bool((i // 2) % 2), img=img,
                    idt=pick_dt(rng, img), isub=rng.random() < 0.2, ind=rng.random() < 0.5, **kinds())
+        if i % 10 == 5 and npix > 0:
+            # (f) directed: an int64 image / matrix with 30-50 significant bits, slim stored, through BOTH branches (preload on /
+            # off): a buffer or conversion that narrows the input (float32, int32) loses >= 1e-8 relative
+            wimg = Sv(rvals(rng, npix, special="wide")); wM = Sm([rvals(rng, 2, special="wide") for _ in range(npix)])
+            for pb in (True, False):
+                yield dict(base, op="tvis", preload=pb, native=False, img=wimg, idt=pick_dt(rng, wimg, ("i8",), 1.0), isub=False, ind=True, **kinds())
+                yield dict(base, op="ttmm", preload=pb, P=2, M=wM, lay="c", dt=pick_dt(rng, wM, ("i8",), 1.0), **kinds())
         vis = [Sv(v) for v in rcv(rng, K, e=rexp(rng), q="c.timage")]
         yield dict(base, op="timage", preload=pre(bool(i % 2)), vis=vis, vform=pick_vform(rng, vis, rr=i),
                    dot_img=Sv(rvals(rng, npix, e=rexp(rng))), **kinds())
